@@ -12,7 +12,9 @@ import (
 	"os/exec"
 	"path/filepath"
 	"sort"
+	"strconv"
 	"strings"
+	"syscall"
 	"time"
 )
 
@@ -145,4 +147,95 @@ func RunWithFiles(args []string, stdin []byte, state State, files map[string][]b
 		}
 	}
 	return res, ns
+}
+
+// RunKilled starts `gts args...` with its standard output connected to a pipe
+// that nobody reads (capacity 4096 bytes): an invocation that writes more than
+// that blocks in the middle of its output, with its cache entry created and
+// partly written but not finalised.  The process is then killed (SIGKILL) and
+// the cache directory read back: the state a crashed or interrupted run leaves
+// behind.  blocked=false when the process finished on its own (output fitted
+// into the pipe) - then nothing was interrupted and the state is that of a
+// normal run.
+func RunKilled(args []string, stdin []byte, state State, files map[string][]byte) (ns State, blocked bool) {
+	scratch, err := os.MkdirTemp("", "verif-cli-")
+	if err != nil {
+		panic(err)
+	}
+	defer os.RemoveAll(scratch)
+	cacheRoot := filepath.Join(scratch, "xdg")
+	cacheDir := filepath.Join(cacheRoot, "gts-cache")
+	os.MkdirAll(cacheDir, 0o755)
+	os.MkdirAll(filepath.Join(scratch, "tmp"), 0o755)
+	os.MkdirAll(filepath.Join(scratch, "home"), 0o755)
+	for n, b := range state {
+		os.WriteFile(filepath.Join(cacheDir, n), b, 0o644)
+	}
+	for n, b := range files {
+		os.WriteFile(filepath.Join(scratch, n), b, 0o644)
+	}
+	inPath := filepath.Join(scratch, "stdin")
+	os.WriteFile(inPath, stdin, 0o644)
+	in, _ := os.Open(inPath)
+	defer in.Close()
+	pr, pw, err := os.Pipe()
+	if err != nil {
+		panic(err)
+	}
+	defer pr.Close()
+	syscall.Syscall(syscall.SYS_FCNTL, pw.Fd(), 1031 /* F_SETPIPE_SZ */, 4096)
+	cmd := exec.Command(Bin(), args...)
+	cmd.Dir = scratch
+	cmd.Stdin = in
+	cmd.Stdout = pw
+	cmd.Stderr = nil
+	cmd.Env = []string{"HOME=" + filepath.Join(scratch, "home"), "XDG_CACHE_HOME=" + cacheRoot, "TMPDIR=" + filepath.Join(scratch, "tmp"), "PATH=/usr/bin:/bin", "LANG=C"}
+	if err := cmd.Start(); err != nil {
+		pw.Close()
+		return state, false
+	}
+	pw.Close()
+	done := make(chan error, 1)
+	go func() { done <- cmd.Wait() }()
+	// wait until the process has exited, or the cache directory has not changed for 150 ms (blocked on the pipe)
+	last, stable := "", 0
+	blocked = true
+	for i := 0; i < 2000; i++ {
+		select {
+		case <-done:
+			blocked = false
+			i = 2000
+			continue
+		case <-time.After(10 * time.Millisecond):
+		}
+		cur := ""
+		if ents, err := os.ReadDir(cacheDir); err == nil {
+			for _, e := range ents {
+				if fi, err := e.Info(); err == nil {
+					cur += e.Name() + ":" + strconv.FormatInt(fi.Size(), 10) + ";"
+				}
+			}
+		}
+		if cur == last {
+			stable++
+		} else {
+			last, stable = cur, 0
+		}
+		if stable >= 15 {
+			break
+		}
+	}
+	if blocked {
+		cmd.Process.Kill()
+		<-done
+	}
+	ns = State{}
+	if ents, err := os.ReadDir(cacheDir); err == nil {
+		for _, e := range ents {
+			if b, err := os.ReadFile(filepath.Join(cacheDir, e.Name())); err == nil {
+				ns[e.Name()] = b
+			}
+		}
+	}
+	return ns, blocked
 }
